@@ -17,7 +17,7 @@ def _run_c12(job):
     try:
         rootcls = concretize_type(root, reg)
         lazy_holder = '"shared"' in __import__("json").dumps(dopts)      # shared Discriminator object: the holder is compiled at its first use
-        holdercls = concretize_type(holder, reg) if site in ("field", "pair") and not lazy_holder else None
+        holdercls = concretize_type(holder, reg) if site in ("field", "pair", "fieldopt", "fieldlist") and not lazy_holder else None
         decoder = None
         for idx, ev in enumerate(beh):
             out["events"] += 1
@@ -31,10 +31,10 @@ def _run_c12(job):
                 try:
                     if site == "config":
                         res = ["ok", abstract_value(rootcls.from_dict(d), reg)]
-                    elif site in ("field", "pair"):
+                    elif site in ("field", "pair", "fieldopt", "fieldlist"):
                         if holdercls is None:
                             holdercls = concretize_type(holder, reg)
-                        res = ["ok", abstract_value(holdercls.from_dict({"f": d}), reg)]
+                        res = ["ok", abstract_value(holdercls.from_dict({"f": [d] if site == "fieldlist" else d}), reg)]
                     else:
                         res = ["ok", abstract_value(decoder.decode(d), reg)]
                 except Exception as e:  # noqa: BLE001
@@ -44,7 +44,7 @@ def _run_c12(job):
                     pass
                 ok = terms_equal(res, exp)
                 if not ok and acceptable and res[0] == "ok":
-                    o = res[1][2][0] if site == "field" else res[1]
+                    o = res[1][2][0] if site in ("field", "fieldopt") else (res[1][2][0][1][0] if site == "fieldlist" else res[1])
                     ok = o[0] == "obj" and o[1] in acceptable
                 if not ok:
                     out["mism"].append({"clause": "variant-choice", "step": idx, "history": beh[: idx + 1], "input": j,
